@@ -153,7 +153,14 @@ func newGovWorld(r *simkit.Run, p govParams) *govWorld {
 	nv := r.C.Range(1, 4, "genesis-validators")
 	w.chain.InitChain(gk, uint64(th), initialEon, forks, simtm.GenesisValidators(nv))
 	w.configs = []cfgSpec{{Index: 0, Activation: 0, Keypers: gk, Threshold: uint64(th)}}
-	r.Eventf("genesis n=%d t=%d eon0=%d forks=%v validators=%d universe=%d replicas=%d", ng, th, initialEon, forks, nv, nu, p.replicas)
+	forksDesc := "nil"
+	if forks != nil {
+		forksDesc = fmt.Sprintf("{new:%+v legacy:nil}", forks.CheckInUpdateNew)
+		if forks.CheckInUpdate != nil {
+			forksDesc = fmt.Sprintf("{new:%+v legacy:%d}", forks.CheckInUpdateNew, *forks.CheckInUpdate)
+		}
+	}
+	r.Eventf("genesis n=%d t=%d eon0=%d forks=%s validators=%d universe=%d replicas=%d", ng, th, initialEon, forksDesc, nv, nu, p.replicas)
 	r.Sample["genesis"] = fmt.Sprintf("n=%d t=%d initialEon=%d universe=%d replicas=%d", ng, th, initialEon, nu, p.replicas)
 	return w
 }
